@@ -22,6 +22,8 @@ def plan_C14(ctx):
     ctx.assumptions = ["TLC/SANY and the CommunityModules Json/IOUtils operators are correct",
                        "the harness projection (h_graph.cpp) reads the public const API faithfully"]
     ctx.model_check("MC_C14.tla", "MC_C14.cfg")
+    # the same invariant for histories of any length over any identifiers (Apalache, inductive)
+    ctx.inductive("CGraphInd.tla", "GInit", "IndInit", "GNext", "EdgesLive")
     if ctx.quick:
         ctx.constants = {"A": ["Ids=1..3,MaxLen=3", "Ids=1..4,MaxLen=2 (+UpdatableGraph ops)"], "B": "12 traces x 150 steps, 6 ids"}
         ctx.replay("Gen_C14.tla", "Gen_C14_q3.cfg", h)
